@@ -12,6 +12,7 @@ mod sim;
 mod vbus;
 
 mod eng_c11;
+mod eng_c12;
 mod eng_codec;
 mod eng_diag;
 mod eng_dp;
@@ -155,6 +156,7 @@ fn main() {
         "C08" => eng_dp::c08(&mut ctx),
         "C17" => eng_dp2::c17(&mut ctx),
         "C11" => eng_c11::c11(&mut ctx),
+        "C12" => eng_c12::c12(&mut ctx),
         "C13" => eng_hold::c13(&mut ctx),
         "C14" => eng_dp::c14(&mut ctx),
         "C09" => eng_codec::c09(&mut ctx),
